@@ -142,7 +142,65 @@ def has_sym(k):
     return False
 
 
+# ---- access recorder for the parallel-loop (prange) race check of C18 -------------------------------------------------------------
+# While RACE['iter'] is set (inside one iteration of the OUTERMOST prange loop, the one numba distributes over threads), every
+# subscript read / write of an array is recorded as (memory cell, iteration).  Two different iterations touching the same cell with
+# at least one write is a data race: the result depends on the thread schedule.  Cells are byte addresses of the underlying buffers
+# (views resolve to the same addresses); buffers are kept alive while recording so that addresses are not reused.
+RACE = {'iter': None, 'depth': 0, 'reads': {}, 'writes': {}, 'keep': [], 'on': False}
+
+
+def race_reset():
+    RACE.update(iter=None, depth=0, reads={}, writes={}, keep=[], on=True, addr={})
+
+
+def _cells(a, k):
+    nd = a._a if isinstance(a, S.SymArray) else a
+    if not isinstance(nd, np.ndarray) or nd.ndim == 0:
+        return None
+    if has_sym(k):
+        return None
+    try:
+        cache = RACE.setdefault('addr', {})
+        addr = cache.get(id(nd))
+        if addr is None:
+            addr = np.full(nd.shape, nd.__array_interface__['data'][0], dtype=np.int64)
+            for ax, (n_, st_) in enumerate(zip(nd.shape, nd.strides)):
+                shp = [1] * nd.ndim; shp[ax] = n_
+                addr = addr + (np.arange(n_, dtype=np.int64) * st_).reshape(shp)
+            cache[id(nd)] = addr
+            RACE['keep'].append(nd)         # keeps the buffer (and its id) alive while recording
+        sel = addr[k]
+    except Exception:       # noqa: unusual index forms are not tracked
+        return None
+    return [int(sel)] if np.ndim(sel) == 0 else np.asarray(sel).ravel().tolist()
+
+
+def _record(a, k, kind):
+    it = RACE['iter']
+    if it is None or not RACE['on']:
+        return
+    cells = _cells(a, k)
+    if not cells:
+        return
+    tab = RACE['writes'] if kind == 'w' else RACE['reads']
+    for c in cells:
+        tab.setdefault(c, set()).add(it)
+
+
+def race_conflicts():
+    """cells written by one iteration and read or written by another one"""
+    out = []
+    for c, ws in RACE['writes'].items():
+        others = (RACE['reads'].get(c, set()) | ws)
+        if len(ws) > 1 or len(others - ws) > 0:
+            out.append((c, sorted(ws), sorted(others)))
+    return out
+
+
 def gi(a, k):
+    if RACE['iter'] is not None:
+        _record(a, k, 'r')
     if isinstance(a, np.ndarray) and a.dtype != object and has_sym(k):
         a = S.SymArray(a, S.kind_of_dtype(a.dtype))
     elif isinstance(a, (list, tuple)) and isinstance(k, S.Sym):
@@ -154,6 +212,8 @@ def gi(a, k):
 
 
 def si(a, k, v):
+    if RACE['iter'] is not None:
+        _record(a, k, 'w')
     if isinstance(a, np.ndarray) and a.dtype != object and (has_sym(k) or isinstance(v, (S.Sym, S.SymArray, S.Masked))):
         raise Unsupported('store of a symbolic value into a real ndarray (array created outside the instrumented modules)')
     a[k] = v
@@ -165,6 +225,8 @@ OPS = {'Add': operator.add, 'Sub': operator.sub, 'Mult': operator.mul, 'Div': op
 
 
 def ai(a, k, op, v):
+    if RACE['iter'] is not None:
+        _record(a, k, 'r'); _record(a, k, 'w')
     if isinstance(k, tuple) and k and all(isinstance(x, S.NZ) for x in k):
         if not isinstance(a, S.SymArray):
             raise Unsupported('augmented store through a symbolic mask into a real ndarray')
